@@ -56,20 +56,33 @@ void grow(Tape &t, Shape &s, int p, int side, int &budget, unsigned pl, unsigned
 
 void ref_order(const Shape &s, int root, int order, std::vector<int> &out)
 {
-	// iterative to survive 300-deep spines without caring about stack
-	std::function<void(int)> rec = [&](int i) {
-		if (i < 0)
-			return;
-		if (order == 1)
-			out.push_back(i);
-		rec(s.L[i]);
-		if (order == 0)
-			out.push_back(i);
-		rec(s.R[i]);
-		if (order == 2)
-			out.push_back(i);
-	};
-	rec(root);
+	// explicit stack: the shapes include chains deeper than 2^16
+	std::vector<std::pair<int, int>> st; // (node, stage)
+	if (root >= 0)
+		st.push_back({ root, 0 });
+	while (!st.empty()) {
+		auto &top = st.back();
+		int i = top.first;
+		switch (top.second++) {
+		case 0:
+			if (order == 1)
+				out.push_back(i);
+			if (s.L[i] >= 0)
+				st.push_back({ s.L[i], 0 });
+			break;
+		case 1:
+			if (order == 0)
+				out.push_back(i);
+			if (s.R[i] >= 0)
+				st.push_back({ s.R[i], 0 });
+			break;
+		default:
+			if (order == 2)
+				out.push_back(i);
+			st.pop_back();
+			break;
+		}
+	}
 }
 
 std::string show(const std::vector<int> &v, size_t lim = 40)
@@ -199,9 +212,168 @@ void check_free(Ctx &c, const Shape &s, int mode, int target, int mis)
 }
 } // namespace
 
+// ---- deep shapes: chains, zig-zags, combs and list spines longer than 2^16 (a 16-bit depth or position counter
+// inside an iterator can only show here).  No recursion anywhere on this path; messages do not print the shape.
+static const char *DEEP_NAME[] = { "left chain of 65537 nodes", "right chain of 65540 nodes", "zig-zag chain of 70001 nodes",
+				   "right chain of 65536 nodes each with a left leaf (131072 nodes)", "left chain of 131075 nodes",
+				   "left-leaning list spine of 65537 list nodes", "right-leaning list spine of 65537 list nodes",
+				   "left-leaning list spine of 65536 list nodes", "left-leaning list spine of 300 list nodes" };
+static const int DEEP_N = 9;
+
+static void deep_case(Ctx &c, int which)
+{
+	c.note("deep case %d: %s", which, DEEP_NAME[which]);
+	c.cls("deep-shape (depth >= 65536)");
+	c.nontrivial = true;
+	if (which <= 4) {
+		Shape s;
+		int p = -1;
+		if (which == 0 || which == 4)
+			for (int i = 0, n = which == 0 ? 65537 : 131075; i < n; i++)
+				p = s.add(p, 0);
+		else if (which == 1)
+			for (int i = 0; i < 65540; i++)
+				p = s.add(p, 1);
+		else if (which == 2)
+			for (int i = 0, side = 0; i < 70001; i++, side ^= 1)
+				p = s.add(p, side);
+		else
+			for (int i = 0; i < 65536; i++) {
+				p = s.add(p, 1);
+				s.add(p, 0);
+			}
+		int n = s.n();
+		std::vector<int> out(n + 2), ref;
+		for (int order = 0; order < 3 && !c.failed; order++) {
+			at_build(n, s.L.data(), s.R.data(), nullptr, 0);
+			int k = at_iterate(order, 0, out.data(), n + 1);
+			ref.clear();
+			ref_order(s, 0, order, ref);
+			if (k != n) {
+				c.fail("%s iterator over a %s returned %s nodes (%d)", ORD[order], DEEP_NAME[which], k < 0 ? "too many" : "the wrong number of", k);
+				return;
+			}
+			for (int i = 0; i < n; i++)
+				if (out[i] != ref[i]) {
+					c.fail("%s iterator over a %s: element %d of the sequence is node %d, the recursive order has node %d there", ORD[order],
+					       DEEP_NAME[which], i, out[i], ref[i]);
+					return;
+				}
+			int bad = at_check_links(-1, 0, -1, 0);
+			if (bad >= 0) {
+				c.fail("after %s iteration ran to completion over a %s, node %d does not have its original links", ORD[order], DEEP_NAME[which], bad);
+				return;
+			}
+		}
+		// bintree_free of the whole tree: every node once, children before parents
+		at_build(n, s.L.data(), s.R.data(), nullptr, 0);
+		std::vector<int> log(n + 2), pos(n, -1);
+		int k = at_free(0, 0, log.data(), n + 1);
+		if (k != n) {
+			c.fail("bintree_free of a %s passed %d nodes to the deallocator, the tree has %d", DEEP_NAME[which], k, n);
+			return;
+		}
+		for (int i = 0; i < n; i++)
+			pos[log[i]] = i;
+		for (int x = 1; x < n; x++)
+			if (pos[x] < 0 || pos[s.parent[x]] < pos[x]) {
+				c.fail("bintree_free of a %s: node %d was %s", DEEP_NAME[which], x, pos[x] < 0 ? "never deallocated" : "deallocated after its parent");
+				return;
+			}
+		at_destroy();
+		return;
+	}
+	// list spines (the left-leaning iterator is quadratic in the spine length: a single case of each kind)
+	int len = which == 7 ? 65536 : which == 8 ? 300 : 65537;
+	bool left = which != 6;
+	std::vector<int> L, R, isl, exp;
+	auto add = [&](int il) {
+		L.push_back(-1);
+		R.push_back(-1);
+		isl.push_back(il);
+		return (int)L.size() - 1;
+	};
+	int root;
+	if (left) {
+		int e1 = add(0), e2 = add(0);
+		exp = { e1, e2 };
+		int cur = add(1);
+		L[cur] = e1, R[cur] = e2;
+		for (int k = 1; k < len; k++) {
+			int e = add(0), l = add(1);
+			L[l] = cur, R[l] = e;
+			cur = l;
+			exp.push_back(e);
+		}
+		root = cur;
+	} else {
+		std::vector<int> ls, es;
+		for (int k = 0; k < len; k++) {
+			ls.push_back(add(1));
+			es.push_back(add(0));
+		}
+		int last = add(0);
+		for (int k = 0; k < len; k++) {
+			L[ls[k]] = es[k];
+			R[ls[k]] = k + 1 < len ? ls[k + 1] : last;
+			exp.push_back(es[k]);
+		}
+		exp.push_back(last);
+		root = ls[0];
+	}
+	int n = (int)L.size();
+	at_build(n, L.data(), R.data(), isl.data(), 0);
+	std::vector<int> out(n + 2);
+	int k = at_list_iterate(root, out.data(), n + 1);
+	if (k != (int)exp.size())
+		c.fail("list iterator over a %s yields %d elements, the list has %zu", DEEP_NAME[which], k, exp.size());
+	else
+		for (size_t i = 0; i < exp.size(); i++)
+			if (out[i] != exp[i]) {
+				c.fail("list iterator over a %s: element %zu is node %d, the list has node %d there", DEEP_NAME[which], i, out[i], exp[i]);
+				break;
+			}
+	if (!c.failed && at_check_links(-1, 0, -1, 0) >= 0)
+		c.fail("list iteration over a %s modified the tree", DEEP_NAME[which]);
+	at_destroy();
+}
+
+void h_custom(long worker, long workers, long seed, std::map<std::string, std::string> &params, CustomOut &o)
+{
+	(void)seed;
+	bool heavy = params.count("heavy") && params["heavy"] != "0"; // cases 3 and 4 take about a minute each (thorough tier)
+	for (int w = 0; w < DEEP_N && !o.failed; w++) {
+		if ((long)(w % workers) != worker || (!heavy && (w == 3 || w == 4)))
+			continue;
+		Tape t;
+		Ctx c(t);
+		if (engine_custom_case) {
+			char pl[40];
+			snprintf(pl, sizeof pl, "param deep=%d\n", w + 1);
+			engine_custom_case(0, pl);
+		}
+		deep_case(c, w);
+		o.evaluations++;
+		o.nontrivial++;
+		o.distinct++;
+		o.classes["deep-shape (depth >= 65536)"]++;
+		o.samples.push_back(DEEP_NAME[w]);
+		if (c.failed) {
+			o.failed = true;
+			o.failmsg = c.failmsg;
+			o.fail_tape = {};
+			o.fail_params["deep"] = std::to_string(w + 1);
+		}
+	}
+}
+
 void h_run(Ctx &c)
 {
 	Tape &t = c.t;
+	if (long d = c.param("deep", 0)) { // replay path of the deep-shape stage
+		deep_case(c, (int)d - 1);
+		return;
+	}
 	long forced = c.param("kind", -1);
 	unsigned kind = forced >= 0 ? (unsigned)forced : t.weighted({ 6, 2, 2 });
 	if (kind == 0 || kind == 1) {
